@@ -3,7 +3,7 @@ use super::*;
 use crate::verif_contracts::{clause, vcover};
 
 /// `core::hint::spin_loop` (x86 `pause`) has no effect on program state: assumed no-op.
-fn spin_loop_model() {}
+pub(crate) fn spin_loop_model() {}
 #[kani::proof]
 #[kani::unwind(6)]
 #[kani::stub(core::hint::spin_loop, spin_loop_model)]
